@@ -26,7 +26,7 @@ pub fn run_c14(args: &Args) -> i32 {
   );
   rep.assume("round-trip equality ignores original_bytes and compares parameter values / payload up to <=3 trailing zero bytes (RTPS padding); generated values never end in a zero byte so padding is unambiguous");
   rep.assume("a submessage that is followed by another must end on a 4-byte boundary; the final one may have any length (DATAFRAG is not padded and is always sent last)");
-  let ncases = args.scale(200_000, 8_000_000);
+  let ncases = args.scale(200_000, 60_000_000);
   let seed = args.seed;
   let replay_case = crate::replay_index(args);
   let acc = par_cases(args.threads(), ncases, |i, acc| {
